@@ -22,7 +22,7 @@ def sig_cr(fl):
 
 SIGNATURES = {'cr-in-chardata': sig_cr}
 
-RICH_TEXTS = ['plain', 'a & b', '<tag>', 'x > y', '"quoted"', "it's", 'Ünï ☃ 𝄞 日本', ' lead', 'trail ', '\n  ', 'tab\there',
+RICH_TEXTS = ['e\u0301 decomposed', '\u2126 ohm \u212b angstrom', '\ufb01 ligature',  'plain', 'a & b', '<tag>', 'x > y', '"quoted"', "it's", 'Ünï ☃ 𝄞 日本', ' lead', 'trail ', '\n  ', 'tab\there',
               'nl\nhere', '&amp; literally', '&#13; literally', ']]>', '--', ' nbsp', ' ls', 'a\u0085b', '']
 
 
